@@ -62,10 +62,35 @@ func VerifC02MapOrder() {
 		}
 		m = mm
 		nd.SymOrderMap(mm)
-	case 4: // interface-keyed map mixing numbers, strings and booleans (as YAML decoding produces)
-		mm := map[any]any{"b": v[0], 2: v[1]}
-		if n == 3 {
-			mm[1.5] = v[2]
+	case 4: // interface-keyed map mixing numbers, strings and booleans (as YAML decoding produces),
+		// including distinct keys that print alike or are numerically equal
+		var mm map[any]any
+		switch nd.Choice(5) {
+		case 0:
+			mm = map[any]any{"b": v[0], 2: v[1]}
+			if n == 3 {
+				mm[1.5] = v[2]
+			}
+		case 1:
+			mm = map[any]any{1: v[0], "1": v[1]}
+			if n == 3 {
+				mm[1.0] = v[2]
+			}
+		case 2:
+			mm = map[any]any{true: v[0], "true": v[1]}
+			if n == 3 {
+				mm[nil] = v[2]
+			}
+		case 3:
+			mm = map[any]any{int8(3): v[0], uint(3): v[1]}
+			if n == 3 {
+				mm[int64(3)] = v[2]
+			}
+		case 4:
+			mm = map[any]any{10: v[0], "9": v[1]}
+			if n == 3 {
+				mm[9.5] = v[2]
+			}
 		}
 		m = mm
 		nd.SymOrderMap(mm)
